@@ -400,6 +400,15 @@ def r7(run: Run, src, g):
         run.check(l.minw >= 1, 'C06.R7', f'{t.name}/min-width', 'empty-match',
                   f'terminal {t.name} can match the empty string: the lexer loop makes no progress', fact=f'min width {l.minw}',
                   loc=loc_of(t.ci.module.path, t.ci.node), )
+    # (a') no terminal pattern of the (a*)* shape: on a non-matching text (an unterminated literal, say) the backtracking
+    # matcher needs time exponential in the length of the text -- translation practically never returns
+    from ..regexmodel import exponential_repeats
+    for t in g.terminals.values():
+        bad = exponential_repeats(t.rx.pattern)
+        run.check(not bad, 'C06.R7', f'{t.name}/backtracking', 'exponential-backtracking',
+                  f'the pattern of terminal {t.name} contains an {bad[0] if bad else ""}: a text that almost matches (e.g. a literal '
+                  f'whose closing quote is missing) makes the lexer try exponentially many splits', fact='no nested unbounded repeat',
+                  loc=loc_of(t.ci.module.path, t.ci.node))
     run.check(g.lexer_order and UNDEFINED not in g.lexer_order, 'C06.R7', 'lexer-order/fallback', 'fallback-order',
               'UndefinedToken is tried before the real terminals', fact='fallback is appended last', nontrivial=False) \
         if False else None
@@ -501,6 +510,21 @@ def r8(run: Run, src):
                   f'the runtime is instantiated as `{what}`; both routes must call the class named ExcelInPython (or the given '
                   f'class object) without arguments', fact=what, loc=loc_of(fi.module.path, st))
     lm = src.func('load_module')
+    # the file route executes the file that is on disk NOW: no module cache (module-level names written or read-before-load)
+    # and no memoising decorator, otherwise a translation regenerated at the same path is answered with the previous class
+    from ..callgraph import stores_of
+    mod_names = {t.id for st in lm.module.tree.body if isinstance(st, (ast.Assign, ast.AnnAssign))
+                 for t in (st.targets if isinstance(st, ast.Assign) else [st.target]) if isinstance(t, ast.Name)}
+    cache_writes = [st for st in stores_of(lm.node) if st.kind == 'global' or
+                    (st.kind in ('subscript', 'mutating-call') and st.base in mod_names)]
+    memo = [ast.unparse(d) for d in lm.node.decorator_list if ast.unparse(d.func if isinstance(d, ast.Call) else d).split('.')[-1]
+            in ('lru_cache', 'cache', 'memoize', 'cached')]
+    uses_sys_modules = 'sys.modules' in ast.unparse(lm.node)
+    run.check(not cache_writes and not memo and not uses_sys_modules, 'C06.R8', 'load_module/no-cache', 'loader-cache',
+              f'load_module keeps loaded modules ({", ".join([c.target for c in cache_writes] + memo + (["sys.modules"] if uses_sys_modules else []))}): '
+              f'loading a translation file again after it was regenerated at the same path returns the class of the previous workbook, '
+              f'so the class loaded from the written file and the class object no longer behave the same',
+              fact='the file is executed on every load', loc=loc_of(lm.module.path, lm.node))
     txt = ast.unparse(lm.node)
     run.check('exec_module' in txt and 'spec_from_file_location' in txt, 'C06.R8', 'load_module', 'loader',
               'load_module does not execute the file through importlib', fact='importlib spec + exec_module',
@@ -548,7 +572,11 @@ def r9(run: Run, src, em):
                                 f'{tr} prints {desc} verbatim as Python source: whatever the formula spells there (leading zeros, '
                                 f'non-ASCII digits, quotes) must be a valid Python token for the class to load',
                                 loc=loc_of(src.cls(tr).module.path, src.cls(tr).node))
-                if s.error:
+                if s.error and any(p.kind == 'opaque' for p in s.atoms.values()):
+                    # text the symbolic evaluation could not follow stands where the error is: inconclusive, not a violation
+                    run.error('C06.R9', f'{e.construct}: `{_shape(s.text)[:80]}` contains text the emission model could not follow '
+                                        f'({[p.a for p in s.atoms.values() if p.kind == "opaque"][:2]}); whether it is Python is undecided')
+                elif s.error:
                     run.bad('C06.R9', e.construct, f'syntax:{_shape(s.text)}',
                             f'{tr} prints `{s.text[:140]}`, which is not a Python expression ({s.error}); world: {e.world[:160]}',
                             loc=loc_of(src.cls(tr).module.path, src.cls(tr).node))
